@@ -2,8 +2,9 @@ package rules
 
 import (
 	"go/ast"
+	"go/types"
+	"strings"
 
-	"verif/internal/core"
 	"verif/internal/flow"
 )
 
@@ -11,46 +12,471 @@ import (
 // Each is a structural necessary condition stated independently of the seeded patch's text;
 // the mutants and behaviour-preserving edits they were tested with are in selftest/mutants/C15.json.
 
-// R-C15-3 (extension): the resend queue is maintained only by publish and doResend.
-func c15QueueWriters(c *core.Ctx) {
-	pkg := c.Prog.Pkg(mq)
-	queueF := structField(c, mq, "Session", "pendingQueue")
-	if pkg == nil || queueF == nil {
+// R-C15-3 (extension): the resend queue is maintained only by the enqueueing function (publish),
+// the resending function (doResend), the helpers they call, and the functions initialising a
+// Session (those that also create the pending map).
+func c15QueueWriters(e *c15env) {
+	c := e.c
+	allowed := map[*ast.BlockStmt]bool{}
+	for _, root := range []*flow.Func{e.publish, e.doResend} {
+		if root == nil {
+			return
+		}
+		for _, g := range e.reachOf(root, 2) {
+			allowed[g.Body] = true
+		}
+	}
+	// session initialisers: the functions creating the pending map (s.pending = make(..) / map literal), and their helpers
+	for _, f := range e.fns {
+		initialises := false
+		ast.Inspect(f.Body, func(n ast.Node) bool {
+			if as, ok := n.(*ast.AssignStmt); ok && len(as.Lhs) == len(as.Rhs) {
+				for i, l := range as.Lhs {
+					if !e.selects(l, e.pendingF) {
+						continue
+					}
+					switch r := ast.Unparen(as.Rhs[i]).(type) {
+					case *ast.CallExpr:
+						if b, ok := f.Callee(r).(*types.Builtin); ok && b.Name() == "make" {
+							initialises = true
+						}
+					case *ast.CompositeLit:
+						initialises = true
+					}
+				}
+			}
+			return true
+		})
+		if initialises {
+			for _, g := range e.reachSync(f, 2) {
+				allowed[g.Body] = true
+			}
+		}
+	}
+	writers := 0
+	for _, f := range e.fns {
+		var at ast.Node
+		ast.Inspect(f.Body, func(n ast.Node) bool {
+			if as, ok := n.(*ast.AssignStmt); ok {
+				for _, l := range as.Lhs {
+					x := ast.Unparen(l)
+					if ix, ok := x.(*ast.IndexExpr); ok {
+						x = ast.Unparen(ix.X)
+					}
+					if e.selects(x, e.queueF) {
+						at = as
+					}
+				}
+			}
+			return true
+		})
+		if at == nil {
+			continue
+		}
+		writers++
+		c.Check(allowed[f.Body], "R-C15-3", e.name(f)+"|resend queue written only by publish / doResend / constructors", pos(c, at),
+			"queue writer is the enqueueing or the resending function (or a helper of theirs, or a session initialiser)", "the resend queue is modified outside publish/doResend (e.g. trimmed when a PUBACK arrives): doResend retransmits only ids it finds in the queue, so ids dropped from it while still pending are never retransmitted although unacknowledged")
+	}
+	c.RequireCount("R-C15-3", "functions writing the resend queue of Session", writers, 2)
+}
+
+// c15ResendLoop: R-C15-5.
+func c15ResendLoop(e *c15env) {
+	c := e.c
+	pkg := e.pkg
+	if e.bgResend == nil {
 		return
 	}
-	allowed := map[string]bool{"publish": true, "doResend": true, "init": true, "newSessionFromYaml": true}
-	writers := 0
-	for _, file := range pkg.Syntax {
-		for _, d := range file.Decls {
-			fd, ok := d.(*ast.FuncDecl)
-			if !ok || fd.Body == nil {
-				continue
-			}
-			f := flow.NewFunc(pkg, fd)
-			var at ast.Node
-			ast.Inspect(fd.Body, func(n ast.Node) bool {
-				if as, ok := n.(*ast.AssignStmt); ok {
-					for _, l := range as.Lhs {
-						e := ast.Unparen(l)
-						if ix, ok := e.(*ast.IndexExpr); ok {
-							e = ast.Unparen(ix.X)
+	bgObj := e.obj(e.bgResend)
+	// aliases of a session variable: the receivers / parameters it is bound to in same-package calls
+	aliases := func(f *flow.Func, obj types.Object) map[types.Object]bool {
+		out := map[types.Object]bool{obj: true}
+		frontier := []*flow.Func{f}
+		for d := 0; d < 2; d++ {
+			var next []*flow.Func
+			for _, g := range frontier {
+				for _, call := range calls(g.Body, true) {
+					o, recv := c15callee(g, call)
+					h := e.byObj[o]
+					if h == nil {
+						continue
+					}
+					is := func(x ast.Expr) bool {
+						id, ok := ast.Unparen(x).(*ast.Ident)
+						return ok && out[c15objOf(g, id)]
+					}
+					hit := false
+					if recv != nil && is(recv) {
+						if fd, ok := h.Node.(*ast.FuncDecl); ok && fd.Recv != nil && len(fd.Recv.List) == 1 && len(fd.Recv.List[0].Names) == 1 {
+							out[h.Info.Defs[fd.Recv.List[0].Names[0]]] = true
+							hit = true
 						}
-						if sel, ok := e.(*ast.SelectorExpr); ok {
-							if s := f.Info.Selections[sel]; s != nil && s.Obj() == queueF {
-								at = as
+					}
+					for i, a := range call.Args {
+						if is(a) {
+							if pid := e.paramIdent(h, i); pid != nil {
+								out[h.Info.Defs[pid]] = true
+								hit = true
 							}
 						}
+					}
+					if hit {
+						next = append(next, h)
+					}
+				}
+			}
+			frontier = next
+		}
+		return out
+	}
+	isResendGo := func(f *flow.Func, n ast.Node, objs map[types.Object]bool) bool {
+		gs, ok := n.(*ast.GoStmt)
+		if !ok {
+			return false
+		}
+		o, recv := c15callee(f, gs.Call)
+		if o != bgObj || recv == nil {
+			return false
+		}
+		id, ok := ast.Unparen(recv).(*ast.Ident)
+		return ok && objs[c15objOf(f, id)]
+	}
+	// startsFor: does f, on every path returning variable obj, start the loop for it?
+	startsFor := func(f *flow.Func, obj types.Object) (bool, *flow.State) {
+		objs := aliases(f, obj)
+		res := analyze(c, f, flow.Config{NoHavoc: true, Inline: e.inline(f, e.bgResend), OnNode: func(st *flow.State, n ast.Node) {
+			if isResendGo(f, n, objs) {
+				st.Set("ev:resend", flow.True)
+			}
+		}})
+		if res == nil {
+			return false, nil
+		}
+		for _, ex := range res.Exits {
+			if ex.Kind != flow.ExitReturn || ex.Return == nil {
+				continue
+			}
+			returnsIt := false
+			for _, r := range ex.Return.Results {
+				if id, ok := ast.Unparen(r).(*ast.Ident); ok && f.Info.Uses[id] == obj {
+					returnsIt = true
+				}
+			}
+			if len(ex.Return.Results) == 0 && f.Type.Results != nil {
+				// bare return with the session as a named result
+				for _, fld := range f.Type.Results.List {
+					for _, nm := range fld.Names {
+						if f.Info.Defs[nm] == obj {
+							returnsIt = true
+						}
+					}
+				}
+			}
+			if returnsIt && !ex.State.Is("ev:resend", flow.True) {
+				return false, ex.State
+			}
+		}
+		return true, nil
+	}
+	isNewSession := func(f *flow.Func, x ast.Expr) bool {
+		x = ast.Unparen(x)
+		if lit := litOf(x); lit != nil {
+			tv, ok := f.Info.Types[lit]
+			return ok && types.Identical(tv.Type, e.sessT)
+		}
+		if call, ok := x.(*ast.CallExpr); ok && len(call.Args) == 1 {
+			if b, ok := f.Callee(call).(*types.Builtin); ok && b.Name() == "new" {
+				tv, ok := f.Info.Types[call.Args[0]]
+				return ok && types.Identical(tv.Type, e.sessT)
+			}
+		}
+		return false
+	}
+	ctors := 0
+	for _, f := range e.fns {
+		fd := f.Node.(*ast.FuncDecl)
+		// variable holding a new Session
+		var obj types.Object
+		ast.Inspect(fd.Body, func(n ast.Node) bool {
+			switch s := n.(type) {
+			case *ast.AssignStmt:
+				if len(s.Lhs) == len(s.Rhs) {
+					for i, r := range s.Rhs {
+						if id, ok := s.Lhs[i].(*ast.Ident); ok && isNewSession(f, r) {
+							obj = c15objOf(f, id)
+						}
+					}
+				}
+			case *ast.ValueSpec:
+				if len(s.Names) == len(s.Values) {
+					for i, r := range s.Values {
+						if isNewSession(f, r) {
+							obj = f.Info.Defs[s.Names[i]]
+						}
+					}
+				}
+			}
+			return true
+		})
+		if obj == nil {
+			continue
+		}
+		ctors++
+		cons := declName(pkg, fd) + "|resend loop started for the new session"
+		ok, bad := startsFor(f, obj)
+		if ok {
+			c.Discharge("R-C15-5", cons, pos(c, fd), "go s.backgroundResendPending() on every path returning the session")
+			continue
+		}
+		// one level of callers
+		callersOK, ncallers := true, 0
+		var badCaller string
+		for _, s := range e.sites[e.obj(f)] {
+			ncallers++
+			f2 := s.fn
+			// result must be bound to a variable for which the loop is started
+			var robj types.Object
+			ast.Inspect(f2.Body, func(n ast.Node) bool {
+				if as, ok := n.(*ast.AssignStmt); ok && len(as.Rhs) == 1 && ast.Unparen(as.Rhs[0]) == s.call && len(as.Lhs) == 1 {
+					if id, ok := as.Lhs[0].(*ast.Ident); ok {
+						robj = c15objOf(f2, id)
 					}
 				}
 				return true
 			})
-			if at == nil {
-				continue
+			started := false
+			if robj != nil {
+				objs := aliases(f2, robj)
+				for _, g := range e.reachOf(f2, 2) {
+					ast.Inspect(g.Body, func(n ast.Node) bool {
+						if isResendGo(g, n, objs) {
+							started = true
+						}
+						return true
+					})
+				}
 			}
-			writers++
-			c.Check(allowed[fd.Name.Name], "R-C15-3", declName(pkg, fd)+"|resend queue written only by publish / doResend / constructors", pos(c, at),
-				"queue writer is the enqueueing or the resending function", "the resend queue is modified outside publish/doResend (e.g. trimmed when a PUBACK arrives): doResend retransmits only ids it finds in the queue, so ids dropped from it while still pending are never retransmitted although unacknowledged")
+			if !started {
+				callersOK = false
+				badCaller = e.name(f2)
+			}
+		}
+		if callersOK && ncallers > 0 {
+			c.Discharge("R-C15-5", cons, pos(c, fd), "started by every direct caller")
+		} else {
+			c.Violate("R-C15-5", cons, pos(c, fd), "a Session is created without its resend loop: unacknowledged QoS1 messages of that session are never retransmitted (not started here"+
+				map[bool]string{true: ", nor in caller " + badCaller, false: ""}[badCaller != ""]+")", witness(bad)...)
 		}
 	}
-	c.RequireCount("R-C15-3", "functions writing Session.pendingQueue", writers, 2)
+	c.RequireCount("R-C15-5", "functions building a Session", ctors, 2)
+}
+
+// c15Registry: R-C15-6.
+func c15Registry(e *c15env) {
+	c := e.c
+	pkg := e.pkg
+	// roles: the test "this client is disconnected" and the close of a client
+	var discConst types.Object
+	if o := pkg.Types.Scope().Lookup("Disconnected"); o != nil {
+		discConst = o
+	}
+	usesDisc := func(g *flow.Func) bool {
+		found := false
+		ast.Inspect(g.Body, func(n ast.Node) bool {
+			if id, ok := n.(*ast.Ident); ok && discConst != nil && g.Info.Uses[id] == discConst {
+				found = true
+			}
+			return true
+		})
+		return found
+	}
+	byNameOr := func(cands []*flow.Func, name string) *flow.Func {
+		if len(cands) == 1 {
+			return cands[0]
+		}
+		for _, g := range cands {
+			if c15declName(g) == name {
+				return g
+			}
+		}
+		for _, g := range e.methodsOf(e.clientT, func(g *flow.Func, sig *types.Signature) bool { return c15declName(g) == name }) {
+			return g
+		}
+		return nil
+	}
+	discM := byNameOr(e.methodsOf(e.clientT, func(g *flow.Func, sig *types.Signature) bool {
+		return sig.Params().Len() == 0 && sig.Results().Len() == 1 && types.Identical(sig.Results().At(0).Type().Underlying(), types.Typ[types.Bool]) && usesDisc(g)
+	}), "disconnected")
+	closeM := byNameOr(e.methodsOf(e.clientT, func(g *flow.Func, sig *types.Signature) bool {
+		return sig.Params().Len() == 0 && sig.Results().Len() == 0 && usesDisc(g)
+	}), "close")
+	if discM == nil || closeM == nil {
+		c.Errorf("R-C15-6: anchor: cannot resolve the Client methods testing / setting the disconnected state (today: disconnected, close)")
+		return
+	}
+	// lookups `val, ok := b.clients[k]`
+	type lookup struct {
+		key     string
+		val, ok *ast.Ident
+	}
+	lookupsIn := func(g *flow.Func) []lookup {
+		var out []lookup
+		ast.Inspect(g.Body, func(n ast.Node) bool {
+			if as, ok := n.(*ast.AssignStmt); ok && len(as.Lhs) == 2 && len(as.Rhs) == 1 {
+				if ix, ok := ast.Unparen(as.Rhs[0]).(*ast.IndexExpr); ok && e.selects(ix.X, e.clientsF) {
+					v, _ := as.Lhs[0].(*ast.Ident)
+					o, _ := as.Lhs[1].(*ast.Ident)
+					if v != nil && o != nil {
+						out = append(out, lookup{g.Render(ix.Index), v, o})
+					}
+				}
+			}
+			return true
+		})
+		return out
+	}
+	// judge: the states reaching del when root is interpreted (helper, if any, in place) and the
+	// first one in which the entry found by lk may be a live connection
+	judge := func(root, helper *flow.Func, del *ast.CallExpr, lk lookup) (int, *flow.State) {
+		discKeys := []string{}
+		for _, g := range []*flow.Func{root, helper} {
+			if g == nil {
+				continue
+			}
+			for _, call := range calls(g.Body, false) {
+				if o, recv := c15callee(g, call); o == e.obj(discM) && recv != nil {
+					discKeys = append(discKeys, g.CallKey(call)+"\x00"+g.Render(recv))
+				}
+			}
+		}
+		cfg := flow.Config{NoHavoc: true, OnCall: func(st *flow.State, call *ast.CallExpr, callee types.Object, deferred bool) {
+			g := e.fnAt(call.Pos())
+			if g == nil {
+				return
+			}
+			if o, recv := c15callee(g, call); o == e.obj(closeM) && recv != nil {
+				st.Set("ev:closed:"+g.Render(recv), flow.True)
+			}
+		}}
+		if helper != nil {
+			ho := e.obj(helper)
+			cfg.Inline = func(call *ast.CallExpr, callee *types.Func) *flow.Func {
+				if callee.Origin() == ho {
+					return helper
+				}
+				return nil
+			}
+		}
+		res := analyze(c, root, cfg)
+		if res == nil {
+			return 0, nil
+		}
+		var bad *flow.State
+		val := root.Render(lk.val)
+		for _, st := range res.At[del] {
+			if st.Is(root.VarKey(lk.ok), flow.False) || st.Is("ev:closed:"+val, flow.True) {
+				continue
+			}
+			known := false
+			for _, dk := range discKeys {
+				if i := strings.IndexByte(dk, 0); dk[i+1:] == val && st.Is(dk[:i], flow.True) {
+					known = true
+				}
+			}
+			if !known {
+				bad = st
+			}
+		}
+		return len(res.At[del]), bad
+	}
+	const okDetail = "%d states: entry absent, registered client disconnected, or just closed"
+	const badDetail = "the client table entry is deleted although the registered client may be a live connection (after a take-over the new connection is dropped from delivery)"
+	sites := 0
+	for _, f := range e.fns {
+		fd := f.Node.(*ast.FuncDecl)
+		var dels []*ast.CallExpr
+		for _, call := range calls(fd.Body, false) {
+			if b, ok := f.Callee(call).(*types.Builtin); ok && b.Name() == "delete" && len(call.Args) == 2 && e.selects(call.Args[0], e.clientsF) {
+				dels = append(dels, call)
+			}
+		}
+		if len(dels) == 0 {
+			continue
+		}
+		own := lookupsIn(f)
+	nextDel:
+		for _, del := range dels {
+			sites++
+			cons := declName(pkg, fd) + "|delete from Broker.clients"
+			k := f.Render(del.Args[1])
+			for _, lk := range own {
+				if lk.key == k {
+					n, bad := judge(f, nil, del, lk)
+					c.Check(bad == nil, "R-C15-6", cons, pos(c, del), sprintf(okDetail, n), badDetail, witness(bad)...)
+					continue nextDel
+				}
+			}
+			// the key is a parameter and every caller looks the entry up itself: judge from the callers
+			if id, ok := ast.Unparen(del.Args[1]).(*ast.Ident); ok {
+				if v, ok := c15objOf(f, id).(*types.Var); ok {
+					pi, isRecv, isPar := e.paramIndex(v)
+					callers := e.sites[e.obj(f)]
+					if isPar && !isRecv && len(callers) > 0 {
+						var lks []lookup
+						for _, s := range callers {
+							if pi >= len(s.call.Args) || s.inGo || s.inDefer {
+								break
+							}
+							for _, lk := range lookupsIn(s.fn) {
+								if lk.key == s.fn.Render(ast.Unparen(s.call.Args[pi])) {
+									lks = append(lks, lk)
+									break
+								}
+							}
+						}
+						if len(lks) == len(callers) {
+							total := 0
+							var bad *flow.State
+							for i, s := range callers {
+								n, b := judge(s.fn, f, del, lks[i])
+								total += n
+								if b != nil {
+									bad = b
+								}
+							}
+							if total == 0 {
+								c.Undecide("R-C15-6", cons, pos(c, del), "the delete is not reached when its callers are interpreted with the helper in place")
+							} else {
+								c.Check(bad == nil, "R-C15-6", cons, pos(c, del), sprintf(okDetail+" (judged from the %d call sites, where the entry is looked up)", total, len(callers)), badDetail, witness(bad)...)
+							}
+							continue nextDel
+						}
+					}
+				}
+			}
+			// the lookup may live in a helper called from here: then this function alone cannot be judged
+			for _, g := range e.reachOf(f, 2)[1:] {
+				if len(lookupsIn(g)) > 0 {
+					c.Undecide("R-C15-6", cons, pos(c, del), "the client table entry is deleted here and looked up in the helper "+c15declName(g)+": cannot relate the two")
+					continue nextDel
+				}
+			}
+			c.Violate("R-C15-6", cons, pos(c, del), "the client table entry is deleted without looking at the registered client: after a take-over the stale connection's teardown removes the new, live connection, which then receives no messages")
+		}
+	}
+	c.RequireCount("R-C15-6", "delete(Broker.clients, id) sites", sites, 2)
+}
+
+// c15rootIdent returns the identifier at the root of a selector chain (nil otherwise).
+func c15rootIdent(x ast.Expr) *ast.Ident {
+	for {
+		switch t := ast.Unparen(x).(type) {
+		case *ast.Ident:
+			return t
+		case *ast.SelectorExpr:
+			x = t.X
+		default:
+			return nil
+		}
+	}
 }
